@@ -598,6 +598,10 @@ func main() {
 	if v := os.Getenv("VERIF_DIR"); v != "" {
 		verifDir = v
 	}
+	// only for evaluating seeded changes in a scratch worktree; registered commands use /repo
+	if v := os.Getenv("POLYSYM_REPO"); v != "" {
+		repoDir = v
+	}
 	if len(os.Args) < 2 {
 		usage()
 	}
